@@ -502,11 +502,11 @@ theorem commit_ok (cfg : Cfg) (hlp : cfg.linkPrecheck = true) (w : W) (p old new
 theorem seated_t (cfg : Cfg) (w : W) (new old : Nat) : (seated cfg w new old).t = w.t := by
   unfold seated; split <;> rfl
 
-/-- the composite-level replacement with all repairs in place: a refusal leaves the world as
-it was -/
-theorem compReplace_atomic (fuel : Nat) (w : W) (p old new : Nat) (hinv : Inv w.g)
-    (herr : (compReplace (Cfg.repaired fuel) w p old new).2 ≠ .ok) :
-    (compReplace (Cfg.repaired fuel) w p old new).1 = w := by
+/-- the composite-level replacement with the repaired log, the ownership pre-check and the link
+pre-check (whatever the other switches): a refusal leaves the world as it was -/
+theorem compReplace_atomic' (cfg : Cfg) (ho : cfg.onlyNewUndo = true) (ha : cfg.adoptPrecheck = true)
+    (hlp : cfg.linkPrecheck = true) (w : W) (p old new : Nat) (hinv : Inv w.g)
+    (herr : (compReplace cfg w p old new).2 ≠ .ok) : (compReplace cfg w p old new).1 = w := by
   unfold compReplace at herr ⊢
   by_cases h1 : w.t.parent old ≠ some p
   · rw [if_pos h1]
@@ -517,8 +517,8 @@ theorem compReplace_atomic (fuel : Nat) (w : W) (p old new : Nat) (hinv : Inv w.
       by_cases h3 : nodeConnected w new = true
       · rw [if_pos h3]
       · rw [if_neg h3] at herr ⊢
-        simp only [Cfg.repaired, if_true] at herr ⊢
-        cases hpre : adoptPre fuel w.t p new with
+        simp only [ha, hlp, if_true] at herr ⊢
+        cases hpre : adoptPre cfg.fuel w.t p new with
         | ok =>
           simp only [hpre] at herr ⊢
           cases hl : linksOf w p old new with
@@ -528,24 +528,30 @@ theorem compReplace_atomic (fuel : Nat) (w : W) (p old new : Nat) (hinv : Inv w.
             by_cases h4 : linksValid w links = false
             · rw [if_pos h4]
             · rw [if_neg h4] at herr ⊢
-              have hat := copyIo_atomic_soft (Cfg.repaired fuel) rfl w new old true hinv
-              have hsh := copyIo_ok_shape (Cfg.repaired fuel) w new old true false
-              simp only [Cfg.repaired] at hat hsh
-              generalize copyIo ⟨true, true, true, true, true, true, fuel⟩ w new old true false = r
-                at herr hat hsh ⊢
-              obtain ⟨w1, e⟩ := r
-              cases e with
-              | ok =>
-                exfalso
-                obtain ⟨f, hf⟩ := hsh w1 rfl
-                apply herr
-                apply commit_ok _ rfl
-                rw [seated_t]
-                have : w1.t = w.t := by rw [hf]
-                rw [this]
-                exact adoptRefusal_after_removal fuel w.t p old new ((adoptPre_ok_iff _ _ _ _).mp hpre)
-              | _ => exact hat (by simp)
+              by_cases h5 : dryRefuses cfg w p old new = true
+              · rw [if_pos h5]
+              · rw [if_neg h5] at herr ⊢
+                have hat := copyIo_atomic_soft cfg ho w new old true hinv
+                have hsh := copyIo_ok_shape cfg w new old true false
+                generalize copyIo cfg w new old true false = r at herr hat hsh ⊢
+                obtain ⟨w1, e⟩ := r
+                cases e with
+                | ok =>
+                  exfalso
+                  obtain ⟨f, hf⟩ := hsh w1 rfl
+                  apply herr
+                  apply commit_ok _ hlp
+                  rw [seated_t]
+                  have : w1.t = w.t := by rw [hf]
+                  rw [this]
+                  exact adoptRefusal_after_removal cfg.fuel w.t p old new ((adoptPre_ok_iff _ _ _ _).mp hpre)
+                | _ => exact hat (by simp)
         | _ => rfl
+
+theorem compReplace_atomic (fuel : Nat) (w : W) (p old new : Nat) (hinv : Inv w.g)
+    (herr : (compReplace (Cfg.repaired fuel) w p old new).2 ≠ .ok) :
+    (compReplace (Cfg.repaired fuel) w p old new).1 = w :=
+  compReplace_atomic' (Cfg.repaired fuel) rfl rfl rfl w p old new hinv herr
 
 /-! ## frames: what cutting and wiring can touch -/
 
@@ -919,6 +925,42 @@ theorem copyPairs_copyInv (g0 : G) (old new : Nat) (onlyNew hard : Bool) (ps : L
     ps (fun _ h => h) g0 [] (CopyInv.init g0 old new h hun)
   exact this
 
+/-- every connection of a channel of `new` after the copy comes from its own counterpart -/
+theorem copyPairs_newFrom (g0 : G) (old new : Nat) (onlyNew hard : Bool) (ps : List (Option Nat × Nat))
+    (h : Inv g0) (hne : old ≠ new) (hself : NoSelfConn g0 old)
+    (hun : ∀ c, g0.owner c = new → g0.conns c = []) (hps : PairsOwned g0 old new ps) :
+    ∀ y z, g0.owner y = new → z ∈ (copyPairs onlyNew g0 hard ps []).1.conns y →
+      ∃ oc, (some y, oc) ∈ ps ∧ z ∈ g0.conns oc := by
+  have := copyPairs_ind
+    (fun g _ => CopyInv g0 old new g ∧
+      ∀ y z, g0.owner y = new → z ∈ g.conns y → ∃ oc, (some y, oc) ∈ ps ∧ z ∈ g0.conns oc) onlyNew hard ps
+    (fun g log my oc hmem hP =>
+      copyTargets_ind
+        (fun g' _ => CopyInv g0 old new g' ∧
+          ∀ y z, g0.owner y = new → z ∈ g'.conns y → ∃ oc, (some y, oc) ∈ ps ∧ z ∈ g0.conns oc)
+        onlyNew my hard (g0.conns oc)
+        (fun g' log' m t _ _ _ hP' => hP')
+        (fun g' log' m t hmy ht _ _ he hP' => by
+          have ho := hps my oc hmem
+          refine ⟨hP'.1.link hne hself hun (ho.2 m hmy) ho.1 (by rw [hP'.1.oldSame oc ho.1]; exact ht) he, ?_⟩
+          intro y z hy hz
+          have htn : g0.owner t ≠ new := by
+            intro e
+            have := (h.symm oc t).mp ht
+            rw [hun t e] at this; cases this
+          have hyt : y ≠ t := by intro e; rw [e] at hy; exact htn hy
+          by_cases hym : y = m
+          · subst hym
+            simp only [linked, updF, hyt, if_false, if_true] at hz
+            rcases List.mem_cons.mp hz with rfl | hz'
+            · exact ⟨oc, by rw [← hmy]; exact hmem, ht⟩
+            · exact hP'.2 y z hy hz'
+          · simp only [linked, updF, hym, hyt, if_false] at hz
+            exact hP'.2 y z hy hz)
+        (g.conns oc) (fun t ht => by rw [← hP.1.oldSame oc (hps my oc hmem).1]; exact ht) g log hP)
+    ps (fun _ h => h) g0 [] ⟨CopyInv.init g0 old new h hun, fun y z hy hz => by rw [hun y hy] at hz; cases hz⟩
+  exact this.2
+
 theorem copyTargets_none_hard (onlyNew : Bool) (g : G) (t : Nat) (ts : List Nat) (log : List (Nat × Nat)) :
     copyTargets onlyNew g none true (t :: ts) log = (g, log, true) := by
   simp [copyTargets]
@@ -977,6 +1019,10 @@ structure SeatCtx (g0 : G) (w1 : W) (old new : Nat) : Prop where
   own : ∀ oc nc, (oc, nc) ∈ standIns w1 new old → g0.owner oc = old ∧ g0.owner nc = new
   complete : ∀ oc, g0.owner oc = old → g0.conns oc ≠ [] → ∃ nc, (oc, nc) ∈ standIns w1 new old
   inj : ∀ e e', e ∈ standIns w1 new old → e' ∈ standIns w1 new old → e.2 = e'.2 → e.1 = e'.1
+  /-- a channel of the replacement that got connected by the copy is a stand-in -/
+  seated : ∀ y, g0.owner y = new → w1.g.conns y ≠ [] → ∃ oc, (oc, y) ∈ standIns w1 new old
+  /-- nothing was connected to the replacement before -/
+  fresh : ∀ y, g0.owner y = new → g0.conns y = []
 
 theorem SeatCtx.owner_eq {g0 : G} {w1 : W} {old new : Nat} (h : SeatCtx g0 w1 old new) :
     w1.g.owner = g0.owner := h.ci.static.owner
@@ -1008,7 +1054,7 @@ theorem seat_neighbour {g0 : G} {w1 : W} {old new : Nat} (h : SeatCtx g0 w1 old 
     simp only [beq_iff_eq] at hq
     have := (h.own e.1 e.2 he).1
     rw [hq] at this; exact hqo this
-  simp only [seat, hf, ha, Bool.false_eq_true, if_false]
+  simp only [seat, hf, ha, Bool.false_eq_true, if_false, seatPass1]
   split
   · rw [h.owner_eq, h.ci.others q hqn]
   · rename_i hnp
@@ -1046,8 +1092,12 @@ theorem seat_own {g0 : G} {w1 : W} {old new : Nat} (h : SeatCtx g0 w1 old new) (
     have h2 := List.find?_some hf
     simp only [beq_iff_eq] at h2
     have h1 : e.1 = oc := h.inj e (oc, nc) he hm h2
-    simp only [seat, hf]
-    rw [h1, h.ci.oldSame oc ho, h.owner_eq]
+    have hnp : oc ∉ (standIns w1 new old).flatMap (fun e => w1.g.conns e.1) := by
+      intro hp
+      obtain ⟨oc', ho', hm'⟩ := (h.partner_iff oc).mp hp
+      exact h.self oc' ho' oc hm' ho
+    simp only [seat, hf, seatPass1]
+    rw [h1, if_neg hnp, h.ci.oldSame oc ho, h.owner_eq]
     apply List.filter_eq_self.mpr
     intro y hy
     simp only [bne_iff_ne, ne_eq]
@@ -1076,7 +1126,32 @@ theorem seat_old {g0 : G} {w1 : W} {old new : Nat} (h : SeatCtx g0 w1 old new) (
         apply hk
         apply List.any_eq_true.mpr
         exact ⟨(c, nc), hm, by simp⟩
+    simp only [seatPass1]
     split <;> simp [hempty]
+
+/-- a channel of the replacement without a connected counterpart stays unconnected -/
+theorem seat_unseated {g0 : G} {w1 : W} {old new : Nat} (h : SeatCtx g0 w1 old new) (h0 : Inv g0) (c : Nat)
+    (hc : g0.owner c = new) (hns : ∀ oc, (oc, c) ∉ standIns w1 new old) : (seat w1 new old).conns c = [] := by
+  have hf : (standIns w1 new old).find? (fun e => e.2 == c) = none := by
+    apply List.find?_eq_none.mpr
+    intro e he hq
+    simp only [beq_iff_eq] at hq
+    exact hns e.1 (by rw [← hq]; exact he)
+  have ha : (standIns w1 new old).any (fun e => e.1 == c) = false := by
+    apply List.any_eq_false.mpr
+    intro e he hq
+    simp only [beq_iff_eq] at hq
+    have := (h.own e.1 e.2 he).1
+    rw [hq, hc] at this; exact h.ne this.symm
+  have hempty : w1.g.conns c = [] := by
+    cases hcs : w1.g.conns c with
+    | nil => rfl
+    | cons a l =>
+      exfalso
+      obtain ⟨oc, hm⟩ := h.seated c hc (by rw [hcs]; simp)
+      exact hns oc hm
+  simp only [seat, hf, ha, Bool.false_eq_true, if_false, seatPass1]
+  split <;> simp [hempty]
 
 theorem disconnectChans_noop (g : G) (cs : List Nat) (h : ∀ c ∈ cs, g.conns c = []) :
     disconnectChans g cs = g := by
@@ -1283,17 +1358,19 @@ theorem linksOf_error_ne_ok (w : W) (p old new : Nat) (e : Err) (h : linksOf w p
       · cases h; decide
       · cases h
 
-theorem compReplace_ok_shape (fuel : Nat) (w : W) (p old new : Nat) (w' : W)
-    (h : compReplace (Cfg.repaired fuel) w p old new = (w', .ok)) :
+theorem compReplace_ok_shape' (cfg : Cfg) (ho : cfg.onlyNewUndo = true) (ha : cfg.adoptPrecheck = true)
+    (hlp : cfg.linkPrecheck = true) (hpos : cfg.positional = true) (w : W) (p old new : Nat) (w' : W)
+    (h : compReplace cfg w p old new = (w', .ok)) :
     w.t.parent old = some p ∧ w.t.parent new = none ∧ nodeConnected w new = false ∧
-    adoptRefusal fuel w.t p new = .ok ∧
+    adoptRefusal cfg.fuel w.t p new = .ok ∧ dryRefuses cfg w p old new = false ∧
     ∃ links f, linksOf w p old new = .ok links ∧ linksValid w links = true ∧
       (copyPairs true w.g true (ioPairs w new old) []).2.2 = false ∧
-      w' = forgeSoft fuel
+      w' = forgeSoft cfg.fuel
         { w with val := f, t := tAfter w.t p old new,
                  g := disconnectChans
                    (seat { w with g := (copyPairs true w.g true (ioPairs w new old) []).1, val := f } new old)
-                   (w.io old).all } links := by
+                   (w.io old).all,
+                 cached := updF (updF w.cached p false) new false } links := by
   unfold compReplace at h
   by_cases h1 : w.t.parent old ≠ some p
   · rw [if_pos h1] at h; simp at h
@@ -1304,8 +1381,8 @@ theorem compReplace_ok_shape (fuel : Nat) (w : W) (p old new : Nat) (w' : W)
       by_cases h3 : nodeConnected w new = true
       · rw [if_pos h3] at h; simp at h
       · rw [if_neg h3] at h
-        simp only [Cfg.repaired, if_true] at h
-        cases hpre : adoptPre fuel w.t p new with
+        simp only [ha, hlp, if_true] at h
+        cases hpre : adoptPre cfg.fuel w.t p new with
         | ok =>
           simp only [hpre] at h
           have hadopt := (adoptPre_ok_iff _ _ _ _).mp hpre
@@ -1319,38 +1396,55 @@ theorem compReplace_ok_shape (fuel : Nat) (w : W) (p old new : Nat) (w' : W)
             by_cases h4 : linksValid w links = false
             · rw [if_pos h4] at h; simp at h
             · rw [if_neg h4] at h
-              have hsh := copyIo_ok_shape (Cfg.repaired fuel) w new old true false
-              have hfl : ∀ w1, copyIo (Cfg.repaired fuel) w new old true false = (w1, .ok) →
-                  (copyPairs true w.g true (ioPairs w new old) []).2.2 = false := by
-                intro w1 hc
-                unfold copyIo at hc
-                simp only [Cfg.repaired] at hc
-                generalize copyPairs true w.g true (ioPairs w new old) [] = r at hc ⊢
-                obtain ⟨g', log, fl⟩ := r
-                cases fl with
-                | true => simp at hc
-                | false => rfl
-              simp only [Cfg.repaired] at hsh hfl
-              generalize copyIo ⟨true, true, true, true, true, true, fuel⟩ w new old true false = r
-                at h hsh hfl
-              obtain ⟨w1, e⟩ := r
-              cases e with
-              | ok =>
-                obtain ⟨f, hf⟩ := hsh w1 rfl
-                have hflag := hfl w1 rfl
-                subst hf
-                have hok := adoptRefusal_after_removal fuel w.t p old new hadopt
-                unfold commit at h
-                simp only [seated, if_true] at h
-                rw [hok] at h
-                refine ⟨by simpa using h1, by simpa using h2, by simpa using h3, hadopt, links, f, rfl,
-                  by simpa using h4, hflag, ?_⟩
-                simp only [Prod.mk.injEq, and_true] at h
-                rw [← h]
-                unfold tAfter
-                simp only [decide_eq_true_eq]
-              | _ => simp at h
+              by_cases h5 : dryRefuses cfg w p old new = true
+              · rw [if_pos h5] at h; simp at h
+              · rw [if_neg h5] at h
+                have hsh := copyIo_ok_shape cfg w new old true false
+                have hfl : ∀ w1, copyIo cfg w new old true false = (w1, .ok) →
+                    (copyPairs true w.g true (ioPairs w new old) []).2.2 = false := by
+                  intro w1 hc
+                  unfold copyIo at hc
+                  rw [ho] at hc
+                  generalize copyPairs true w.g true (ioPairs w new old) [] = r at hc ⊢
+                  obtain ⟨g', log, fl⟩ := r
+                  cases fl with
+                  | true => simp at hc
+                  | false => rfl
+                rw [ho] at hsh
+                generalize copyIo cfg w new old true false = r at h hsh hfl
+                obtain ⟨w1, e⟩ := r
+                cases e with
+                | ok =>
+                  obtain ⟨f, hf⟩ := hsh w1 rfl
+                  have hflag := hfl w1 rfl
+                  subst hf
+                  have hok := adoptRefusal_after_removal cfg.fuel w.t p old new hadopt
+                  unfold commit at h
+                  simp only [seated, hpos, if_true] at h
+                  rw [hok] at h
+                  refine ⟨by simpa using h1, by simpa using h2, by simpa using h3, hadopt, by simpa using h5,
+                    links, f, rfl, by simpa using h4, hflag, ?_⟩
+                  simp only [hlp, if_true, Prod.mk.injEq, and_true] at h
+                  rw [← h]
+                  unfold tAfter
+                  simp only [decide_eq_true_eq]
+                | _ => simp at h
         | _ => simp [hpre] at h
+
+theorem compReplace_ok_shape (fuel : Nat) (w : W) (p old new : Nat) (w' : W)
+    (h : compReplace (Cfg.repaired fuel) w p old new = (w', .ok)) :
+    w.t.parent old = some p ∧ w.t.parent new = none ∧ nodeConnected w new = false ∧
+    adoptRefusal fuel w.t p new = .ok ∧
+    ∃ links f, linksOf w p old new = .ok links ∧ linksValid w links = true ∧
+      (copyPairs true w.g true (ioPairs w new old) []).2.2 = false ∧
+      w' = forgeSoft fuel
+        { w with val := f, t := tAfter w.t p old new,
+                 g := disconnectChans
+                   (seat { w with g := (copyPairs true w.g true (ioPairs w new old) []).1, val := f } new old)
+                   (w.io old).all,
+                 cached := updF (updF w.cached p false) new false } links := by
+  obtain ⟨a1, a2, a3, a4, _, rest⟩ := compReplace_ok_shape' (Cfg.repaired fuel) rfl rfl rfl rfl w p old new w' h
+  exact ⟨a1, a2, a3, a4, rest⟩
 
 /-! ## inheritance -/
 
@@ -1424,7 +1518,7 @@ theorem seatCtx_of (fuel : Nat) (w : W) (p old new : Nat) (f : Nat → Option Na
       = standIns w new old :=
     standIns_congr w _ f new old (fun oc hoc => hci.oldSame oc ((htab.oldOwn oc).mp hoc))
   have hkn : w.t.kind new ≠ .workflow := ((adoptRefusal_ok_iff _ _ _ _).mp hadopt).2
-  refine ⟨hci, hne, hself, ?_, ?_, ?_⟩
+  refine ⟨hci, hne, hself, ?_, ?_, ?_, ?_, ?_⟩
   · intro oc nc hm
     rw [hst] at hm
     obtain ⟨hio, _⟩ := mem_standIns w new old oc nc hm
@@ -1439,6 +1533,13 @@ theorem seatCtx_of (fuel : Nat) (w : W) (p old new : Nat) (f : Nat → Option Na
         (CopyInv.init w.g old new hinv hun) hps hflag oc hmy)
     | some nc => exact ⟨nc, standIns_of w new old oc nc hmy hcon⟩
   · rw [hst]; exact htab.inj
+  · intro y hy hcon
+    rw [hst]
+    obtain ⟨z, hz⟩ := List.exists_mem_of_ne_nil _ hcon
+    obtain ⟨oc, hmem, hzo⟩ := copyPairs_newFrom w.g old new true true (ioPairs w new old) hinv hne hself hun hps
+      y z hy hz
+    exact ⟨oc, standIns_of w new old oc y hmem (List.ne_nil_of_mem hzo)⟩
+  · exact hun
 
 theorem mem_vals_popVal (l : List (Tree.Str × Nat)) (v x : Nat) :
     x ∈ Tree.vals (Tree.popVal l v) ↔ x ∈ Tree.vals l ∧ x ≠ v := by
@@ -1527,6 +1628,47 @@ theorem tAfter_facts (t : Tree.Tree) (p old new : Nat) (hpo : t.parent old = som
 stand-ins hold the replaced channels' lists, every neighbour lists them where it listed the
 replaced channels, the replaced node is free, the tree is `tAfter`, and the links are the old
 ones overwritten by the computed ones -/
+theorem compReplace_inherits' (cfg : Cfg) (ho : cfg.onlyNewUndo = true) (ha : cfg.adoptPrecheck = true)
+    (hlp : cfg.linkPrecheck = true) (hpos : cfg.positional = true) (w : W) (p old new : Nat) (w' : W)
+    (h : compReplace cfg w p old new = (w', .ok)) (hinv : Inv w.g)
+    (htab : Tables w old new) (hself : NoSelfConn w.g old) :
+    (∀ oc nc, (oc, nc) ∈ standIns w new old → w'.g.conns nc = w.g.conns oc) ∧
+    (∀ q, w.g.owner q ≠ old → w.g.owner q ≠ new →
+      w'.g.conns q = (w.g.conns q).map (subst (standIns w new old))) ∧
+    (∀ c, w.g.owner c = old → w'.g.conns c = []) ∧
+    w'.t = tAfter w.t p old new ∧
+    (∃ links, linksOf w p old new = .ok links ∧ w'.recv = overwrite w.recv links) ∧
+    w'.cached = updF (updF w.cached p false) new false ∧
+    w'.g = seat { w with g := (copyPairs true w.g true (ioPairs w new old) []).1, val := w'.val } new old ∧
+    SeatCtx w.g { w with g := (copyPairs true w.g true (ioPairs w new old) []).1, val := w'.val } old new := by
+  obtain ⟨hpo, hpn, hcn, hadopt, _, links, f, hl, _, hflag, hw'⟩ :=
+    compReplace_ok_shape' cfg ho ha hlp hpos w p old new w' h
+  have hctx := seatCtx_of cfg.fuel w p old new f hinv htab hself hpo hpn hcn hadopt hflag
+  have hst : standIns { w with g := (copyPairs true w.g true (ioPairs w new old) []).1, val := f } new old
+      = standIns w new old :=
+    standIns_congr w _ f new old (fun oc hoc => hctx.ci.oldSame oc ((htab.oldOwn oc).mp hoc))
+  have hdc : disconnectChans
+      (seat { w with g := (copyPairs true w.g true (ioPairs w new old) []).1, val := f } new old) (w.io old).all
+      = seat { w with g := (copyPairs true w.g true (ioPairs w new old) []).1, val := f } new old :=
+    disconnectChans_noop _ _ (fun c hc => seat_old hctx c ((htab.oldOwn c).mp hc))
+  rw [hdc] at hw'
+  obtain ⟨f2, hf2⟩ := forgeSoft_shape cfg.fuel links
+    { w with val := f, t := tAfter w.t p old new,
+             g := seat { w with g := (copyPairs true w.g true (ioPairs w new old) []).1, val := f } new old,
+             cached := updF (updF w.cached p false) new false }
+  rw [hf2] at hw'
+  subst hw'
+  have hctx2 := seatCtx_of cfg.fuel w p old new f2 hinv htab hself hpo hpn hcn hadopt hflag
+  refine ⟨?_, ?_, ?_, rfl, ⟨links, hl, rfl⟩, rfl, rfl, hctx2⟩
+  · intro oc nc hm
+    rw [← hst] at hm
+    exact seat_own hctx oc nc hm
+  · intro q hqo hqn
+    rw [← hst]
+    exact seat_neighbour hctx hinv q hqo hqn
+  · intro c hc
+    exact seat_old hctx c hc
+
 theorem compReplace_inherits (fuel : Nat) (w : W) (p old new : Nat) (w' : W)
     (h : compReplace (Cfg.repaired fuel) w p old new = (w', .ok)) (hinv : Inv w.g)
     (htab : Tables w old new) (hself : NoSelfConn w.g old) :
@@ -1536,30 +1678,350 @@ theorem compReplace_inherits (fuel : Nat) (w : W) (p old new : Nat) (w' : W)
     (∀ c, w.g.owner c = old → w'.g.conns c = []) ∧
     w'.t = tAfter w.t p old new ∧
     (∃ links, linksOf w p old new = .ok links ∧ w'.recv = overwrite w.recv links) := by
-  obtain ⟨hpo, hpn, hcn, hadopt, links, f, hl, _, hflag, hw'⟩ := compReplace_ok_shape fuel w p old new w' h
-  have hctx := seatCtx_of fuel w p old new f hinv htab hself hpo hpn hcn hadopt hflag
-  have hst : standIns { w with g := (copyPairs true w.g true (ioPairs w new old) []).1, val := f } new old
+  obtain ⟨a1, a2, a3, a4, a5, _⟩ :=
+    compReplace_inherits' (Cfg.repaired fuel) rfl rfl rfl rfl w p old new w' h hinv htab hself
+  exact ⟨a1, a2, a3, a4, a5⟩
+
+/-! ## mutuality, typing and duplicate-freedom survive the seat (C12's invariant) -/
+
+/-- the involution that swaps every connected channel of the replaced node with its stand-in -/
+def swapCh (m : List (Nat × Nat)) (x : Nat) : Nat :=
+  match m.lookup x with
+  | some n => n
+  | none =>
+    match m.find? (fun e => e.2 == x) with
+    | some e => e.1
+    | none => x
+
+theorem nodup_map_inj (τ : Nat → Nat) (hinj : ∀ a b, τ a = τ b → a = b) : ∀ (l : List Nat), l.Nodup → (l.map τ).Nodup := by
+  intro l
+  induction l with
+  | nil => intro _; simp
+  | cons a l ih =>
+    intro h
+    simp only [List.nodup_cons, List.map_cons, List.mem_map, not_exists, not_and] at h ⊢
+    exact ⟨fun x hx e => h.1 (hinj x a e ▸ hx), ih h.2⟩
+
+/-- conjugating a well-formed graph with a kind-preserving involution gives a well-formed graph -/
+theorem inv_conj (g g' : G) (τ : Nat → Nat) (hinv : Inv g) (hτ : ∀ x, τ (τ x) = x)
+    (hk : ∀ x, g.kind (τ x) = g.kind x) (hkind : g'.kind = g.kind)
+    (hc : ∀ x, g'.conns x = (g.conns (τ x)).map τ) : Inv g' := by
+  have hinj : ∀ a b, τ a = τ b → a = b := fun a b h => by rw [← hτ a, ← hτ b, h]
+  have hmem : ∀ a b, b ∈ g'.conns a ↔ τ b ∈ g.conns (τ a) := by
+    intro a b
+    rw [hc a, List.mem_map]
+    constructor
+    · rintro ⟨z, hz, rfl⟩; rw [hτ]; exact hz
+    · intro h; exact ⟨τ b, h, hτ b⟩
+  refine ⟨?_, ?_, ?_⟩
+  · intro a b
+    rw [hmem a b, hmem b a]
+    exact hinv.symm (τ a) (τ b)
+  · intro a b hb
+    have := hinv.typed (τ a) (τ b) ((hmem a b).mp hb)
+    rw [hkind, ← hk a, ← hk b]; exact this
+  · intro a
+    rw [hc a]
+    exact nodup_map_inj τ hinj _ (hinv.nodup (τ a))
+
+/-- what is needed of the stand-in table beyond `SeatCtx`: one stand-in per replaced channel, of
+the same kind -/
+structure StandInsOk (g0 : G) (m : List (Nat × Nat)) : Prop where
+  fn : ∀ e e', e ∈ m → e' ∈ m → e.1 = e'.1 → e.2 = e'.2
+  kinds : ∀ e, e ∈ m → g0.kind e.1 = g0.kind e.2
+
+theorem seat_inv {g0 : G} {w1 : W} {old new : Nat} (h : SeatCtx g0 w1 old new) (h0 : Inv g0)
+    (hm : StandInsOk g0 (standIns w1 new old)) : Inv (seat w1 new old) := by
+  -- the table read both ways
+  have hkey : ∀ oc nc, (oc, nc) ∈ standIns w1 new old → (standIns w1 new old).lookup oc = some nc := by
+    intro oc nc hmem
+    cases hl : (standIns w1 new old).lookup oc with
+    | none =>
+      have := List.lookup_eq_none_iff.mp hl (oc, nc) hmem
+      simp at this
+    | some n =>
+      have := hm.fn (oc, n) (oc, nc) (lookup_mem hl) hmem rfl
+      simp only at this; rw [this]
+  have hnokey : ∀ x, g0.owner x ≠ old → (standIns w1 new old).lookup x = none := by
+    intro x hx
+    cases hl : (standIns w1 new old).lookup x with
+    | none => rfl
+    | some n => exact absurd (h.own x n (lookup_mem hl)).1 hx
+  have hval : ∀ oc nc, (oc, nc) ∈ standIns w1 new old →
+      ∃ e, (standIns w1 new old).find? (fun e => e.2 == nc) = some e ∧ e.1 = oc := by
+    intro oc nc hmem
+    cases hf : (standIns w1 new old).find? (fun e => e.2 == nc) with
+    | none =>
+      have := List.find?_eq_none.mp hf (oc, nc) hmem
+      simp at this
+    | some e =>
+      have he := List.mem_of_find?_eq_some hf
+      have h2 := List.find?_some hf
+      simp only [beq_iff_eq] at h2
+      exact ⟨e, rfl, h.inj e (oc, nc) he hmem h2⟩
+  have hnoval : ∀ x, g0.owner x ≠ new → (standIns w1 new old).find? (fun e => e.2 == x) = none := by
+    intro x hx
+    apply List.find?_eq_none.mpr
+    intro e he hq
+    simp only [beq_iff_eq] at hq
+    have := (h.own e.1 e.2 he).2
+    rw [hq] at this; exact hx this
+  have hne := h.ne
+  -- the swap on the three kinds of channels
+  have τkey : ∀ oc nc, (oc, nc) ∈ standIns w1 new old → swapCh (standIns w1 new old) oc = nc := by
+    intro oc nc hmem; simp [swapCh, hkey oc nc hmem]
+  have τval : ∀ oc nc, (oc, nc) ∈ standIns w1 new old → swapCh (standIns w1 new old) nc = oc := by
+    intro oc nc hmem
+    obtain ⟨e, hf, he⟩ := hval oc nc hmem
+    have : g0.owner nc ≠ old := by rw [(h.own oc nc hmem).2]; exact Ne.symm hne
+    simp [swapCh, hnokey nc this, hf, he]
+  have τfix : ∀ x, (∀ n, (x, n) ∉ standIns w1 new old) → (∀ o, (o, x) ∉ standIns w1 new old) →
+      swapCh (standIns w1 new old) x = x := by
+    intro x h1 h2
+    have l1 : (standIns w1 new old).lookup x = none := by
+      cases hl : (standIns w1 new old).lookup x with
+      | none => rfl
+      | some n => exact absurd (lookup_mem hl) (h1 n)
+    have l2 : (standIns w1 new old).find? (fun e => e.2 == x) = none := by
+      apply List.find?_eq_none.mpr
+      intro e he hq
+      simp only [beq_iff_eq] at hq
+      exact h2 e.1 (by rw [← hq]; exact he)
+    simp [swapCh, l1, l2]
+  have τout : ∀ x, g0.owner x ≠ old → g0.owner x ≠ new → swapCh (standIns w1 new old) x = x := by
+    intro x ho hn
+    exact τfix x (fun n hmem => ho (h.own x n hmem).1) (fun o hmem => hn (h.own o x hmem).2)
+  -- classification of a channel
+  have hcases : ∀ x, (∃ nc, (x, nc) ∈ standIns w1 new old) ∨ (∃ oc, (oc, x) ∈ standIns w1 new old) ∨
+      ((∀ n, (x, n) ∉ standIns w1 new old) ∧ (∀ o, (o, x) ∉ standIns w1 new old)) := by
+    intro x
+    by_cases h1 : ∃ nc, (x, nc) ∈ standIns w1 new old
+    · exact .inl h1
+    · by_cases h2 : ∃ oc, (oc, x) ∈ standIns w1 new old
+      · exact .inr (.inl h2)
+      · exact .inr (.inr ⟨fun n hm => h1 ⟨n, hm⟩, fun o hm => h2 ⟨o, hm⟩⟩)
+  have hinvol : ∀ x, swapCh (standIns w1 new old) (swapCh (standIns w1 new old) x) = x := by
+    intro x
+    rcases hcases x with ⟨nc, hmem⟩ | ⟨oc, hmem⟩ | ⟨h1, h2⟩
+    · rw [τkey x nc hmem, τval x nc hmem]
+    · rw [τval oc x hmem, τkey oc x hmem]
+    · rw [τfix x h1 h2, τfix x h1 h2]
+  have hkindτ : ∀ x, g0.kind (swapCh (standIns w1 new old) x) = g0.kind x := by
+    intro x
+    rcases hcases x with ⟨nc, hmem⟩ | ⟨oc, hmem⟩ | ⟨h1, h2⟩
+    · rw [τkey x nc hmem]; exact (hm.kinds _ hmem).symm
+    · rw [τval oc x hmem]; exact hm.kinds _ hmem
+    · rw [τfix x h1 h2]
+  -- members of the former lists are outsiders, except for the replaced channels listed by outsiders
+  have hlist_old : ∀ oc, g0.owner oc = old → ∀ z ∈ g0.conns oc, g0.owner z ≠ old ∧ g0.owner z ≠ new := by
+    intro oc ho z hz
+    refine ⟨h.self oc ho z hz, ?_⟩
+    intro hzn
+    have := (h0.symm oc z).mp hz
+    rw [h.fresh z hzn] at this; cases this
+  apply inv_conj g0 (seat w1 new old) (swapCh (standIns w1 new old)) h0 hinvol hkindτ
+  · show w1.g.kind = g0.kind
+    exact h.ci.static.kind
+  · intro x
+    rcases hcases x with ⟨nc, hmem⟩ | ⟨oc, hmem⟩ | ⟨h1, h2⟩
+    · -- a connected channel of the replaced node
+      have ho := (h.own x nc hmem).1
+      rw [seat_old h x ho, τkey x nc hmem, h.fresh nc (h.own x nc hmem).2]
+      rfl
+    · -- a stand-in
+      have ho := (h.own oc x hmem).1
+      rw [seat_own h oc x hmem, τval oc x hmem]
+      symm
+      conv => rhs; rw [← List.map_id (g0.conns oc)]
+      apply List.map_congr_left
+      intro z hz
+      obtain ⟨a, b⟩ := hlist_old oc ho z hz
+      exact τout z a b
+    · rw [τfix x h1 h2]
+      by_cases hxo : g0.owner x = old
+      · -- an unconnected channel of the replaced node
+        rw [seat_old h x hxo]
+        cases hcs : g0.conns x with
+        | nil => rfl
+        | cons a l =>
+          exfalso
+          obtain ⟨nc, hmem⟩ := h.complete x hxo (by rw [hcs]; simp)
+          exact h1 nc hmem
+      · by_cases hxn : g0.owner x = new
+        · rw [seat_unseated h h0 x hxn h2, h.fresh x hxn]; rfl
+        · rw [seat_neighbour h h0 x hxo hxn]
+          apply List.map_congr_left
+          intro z hz
+          by_cases hzk : ∃ n, (z, n) ∈ standIns w1 new old
+          · obtain ⟨n, hmem⟩ := hzk
+            rw [τkey z n hmem]
+            simp [subst, hkey z n hmem]
+          · have hzn : g0.owner z ≠ new := by
+              intro e
+              have := (h0.symm x z).mp hz
+              rw [h.fresh z e] at this; cases this
+            have l1 : (standIns w1 new old).lookup z = none := by
+              cases hl : (standIns w1 new old).lookup z with
+              | none => rfl
+              | some n => exact absurd ⟨n, lookup_mem hl⟩ hzk
+            rw [τfix z (fun n hm => hzk ⟨n, hm⟩) (fun o hm => hzn (h.own o z hm).2)]
+            simp [subst, l1]
+
+/-! ## the dry run of the workflow IO is sound -/
+
+theorem tAfter_children (t : Tree.Tree) (p old new : Nat) (hne : old ≠ new) :
+    (tAfter t p old new).children p = Tree.popVal (t.children p) old ++ [(t.label old, new)] := by
+  have hne' : new ≠ old := Ne.symm hne
+  unfold tAfter
+  split <;> simp [adopt, swapLabels, Tree.removeCore0, updF, hne']
+
+theorem buildFrom_conn_congr (m : WfIO.KeyMap) (c c' : Nat → Bool) :
+    ∀ (chans : WfIO.Chans) (io : WfIO.Panel), (∀ ch ∈ chans, c ch.2 = c' ch.2) →
+      WfIO.buildFrom m c io chans = WfIO.buildFrom m c' io chans := by
+  intro chans
+  induction chans with
+  | nil => intro io _; rfl
+  | cons ch rest ih =>
+    intro io h
+    unfold WfIO.buildFrom
+    have hs : WfIO.stepKey m c ch = WfIO.stepKey m c' ch := by
+      unfold WfIO.stepKey
+      rw [h ch (List.mem_cons_self ..)]
+    rw [hs]
+    have hr := fun io' => ih io' (fun x hx => h x (List.mem_cons_of_mem _ hx))
+    split
+    · exact hr io
+    · split
+      · rfl
+      · exact hr _
+
+theorem buildIO_conn_congr (m : Option WfIO.KeyMap) (c c' : Nat → Bool) (chans : WfIO.Chans)
+    (h : ∀ ch ∈ chans, c ch.2 = c' ch.2) : WfIO.buildIO m c chans = WfIO.buildIO m c' chans := by
+  unfold WfIO.buildIO
+  exact buildFrom_conn_congr _ c c' chans [] h
+
+/-- the channel tables of the other children of `p` belong to them (and so neither to the
+replaced node nor to the replacement) -/
+def SiblingsApart (w : W) (p old new : Nat) : Prop :=
+  ∀ e ∈ Tree.popVal (w.t.children p) old, ∀ c, c ∈ (w.io e.2).inp ∨ c ∈ (w.io e.2).out →
+    w.g.owner c ≠ old ∧ w.g.owner c ≠ new
+
+theorem mem_dryChans (w : W) (p old new : Nat) (side : NodeIO → List Nat) (ch : String × Nat)
+    (h : ch ∈ dryChans w p old new side) :
+    (∃ e ∈ Tree.popVal (w.t.children p) old, ch.2 ∈ side (w.io e.2)) ∨ ch.2 ∈ side (w.io new) := by
+  unfold dryChans at h
+  rcases List.mem_append.mp h with h | h
+  · left
+    obtain ⟨e, he, hm⟩ := List.mem_flatMap.mp h
+    obtain ⟨c, hc, rfl⟩ := List.mem_map.mp hm
+    exact ⟨e, he, hc⟩
+  · right
+    obtain ⟨c, hc, rfl⟩ := List.mem_map.mp h
+    exact hc
+
+/-- after a successful replacement the connectedness the dry run assumed is the real one -/
+theorem dryConn_sound (cfg : Cfg) (ho : cfg.onlyNewUndo = true) (ha : cfg.adoptPrecheck = true)
+    (hlp : cfg.linkPrecheck = true) (hpos : cfg.positional = true) (w : W) (p old new : Nat) (w' : W)
+    (h : compReplace cfg w p old new = (w', .ok)) (hinv : Inv w.g) (htab : Tables w old new)
+    (hself : NoSelfConn w.g old) (hsib : SiblingsApart w p old new)
+    (side : NodeIO → List Nat) (hside : ∀ n c, c ∈ side (w.io n) → c ∈ (w.io n).inp ∨ c ∈ (w.io n).out)
+    (ch : String × Nat) (hch : ch ∈ dryChans w p old new side) :
+    (!(w'.g.conns ch.2).isEmpty) = dryConn w old new ch.2 := by
+  obtain ⟨h1, h2, _, _, _, _, hg, hctx⟩ :=
+    compReplace_inherits' cfg ho ha hlp hpos w p old new w' h hinv htab hself
+  have hst : standIns { w with g := (copyPairs true w.g true (ioPairs w new old) []).1, val := w'.val } new old
       = standIns w new old :=
-    standIns_congr w _ f new old (fun oc hoc => hctx.ci.oldSame oc ((htab.oldOwn oc).mp hoc))
-  have hdc : disconnectChans
-      (seat { w with g := (copyPairs true w.g true (ioPairs w new old) []).1, val := f } new old) (w.io old).all
-      = seat { w with g := (copyPairs true w.g true (ioPairs w new old) []).1, val := f } new old :=
-    disconnectChans_noop _ _ (fun c hc => seat_old hctx c ((htab.oldOwn c).mp hc))
-  rw [hdc] at hw'
-  obtain ⟨f2, hf2⟩ := forgeSoft_shape fuel links
+    standIns_congr w _ _ new old (fun oc hoc => hctx.ci.oldSame oc ((htab.oldOwn oc).mp hoc))
+  unfold dryConn
+  rcases mem_dryChans w p old new side ch hch with ⟨e, he, hc⟩ | hc
+  · obtain ⟨hno, hnn⟩ := hsib e he ch.2 (hside e.2 ch.2 hc)
+    rw [if_neg hnn, h2 ch.2 hno hnn]
+    simp
+  · have hown : w.g.owner ch.2 = new := (htab.newOwn ch.2).mp (by
+      rcases hside new ch.2 hc with h | h <;> simp [NodeIO.all, h])
+    rw [if_pos hown]
+    by_cases hs : ∃ oc, (oc, ch.2) ∈ standIns w new old
+    · obtain ⟨oc, hm⟩ := hs
+      rw [h1 oc ch.2 hm]
+      have hne := (mem_standIns w new old oc ch.2 hm).2
+      have : (standIns w new old).any (fun e => e.2 == ch.2) = true :=
+        List.any_eq_true.mpr ⟨(oc, ch.2), hm, by simp⟩
+      rw [this]
+      cases hco : w.g.conns oc with
+      | nil => exact absurd hco hne
+      | cons a l => rfl
+    · have hns : ∀ oc, (oc, ch.2) ∉ standIns w new old := fun oc hm => hs ⟨oc, hm⟩
+      have : (standIns w new old).any (fun e => e.2 == ch.2) = false := by
+        apply List.any_eq_false.mpr
+        intro e he hq
+        simp only [beq_iff_eq] at hq
+        exact hns e.1 (by rw [← hq]; exact he)
+      rw [this, hg, seat_unseated hctx hinv ch.2 hown (by rw [hst]; exact hns)]
+      rfl
+
+/-- … hence the IO of the workflow can be built after every replacement the dry run let pass -/
+theorem wf_rebuild_ok (cfg : Cfg) (ho : cfg.onlyNewUndo = true) (ha : cfg.adoptPrecheck = true)
+    (hlp : cfg.linkPrecheck = true) (hpos : cfg.positional = true) (hdry : cfg.wfDryRun = true)
+    (w : W) (p old new : Nat) (w' : W) (hk : w.t.kind p = .workflow)
+    (h : compReplace cfg w p old new = (w', .ok)) (hinv : Inv w.g) (htab : Tables w old new)
+    (hself : NoSelfConn w.g old) (hsib : SiblingsApart w p old new) : wfIoOk w' p = true := by
+  obtain ⟨hpo, hpn, _, _, hdr, links, f, _, _, _, hw'⟩ := compReplace_ok_shape' cfg ho ha hlp hpos w p old new w' h
+  have hne : old ≠ new := by intro e; rw [e, hpn] at hpo; cases hpo
+  have hdok : dryOk w p old new = true := by
+    simp only [dryRefuses, hdry, hk, decide_true, Bool.true_and, Bool.not_eq_false'] at hdr
+    simpa using hdr
+  obtain ⟨f2, hf2⟩ := forgeSoft_shape cfg.fuel links
     { w with val := f, t := tAfter w.t p old new,
-             g := seat { w with g := (copyPairs true w.g true (ioPairs w new old) []).1, val := f } new old }
-  rw [hf2] at hw'
-  subst hw'
-  refine ⟨?_, ?_, ?_, rfl, links, hl, rfl⟩
-  · intro oc nc hm
-    rw [← hst] at hm
-    exact seat_own hctx oc nc hm
-  · intro q hqo hqn
-    rw [← hst]
-    exact seat_neighbour hctx hinv q hqo hqn
-  · intro c hc
-    exact seat_old hctx c hc
+             g := disconnectChans
+               (seat { w with g := (copyPairs true w.g true (ioPairs w new old) []).1, val := f } new old)
+               (w.io old).all,
+             cached := updF (updF w.cached p false) new false }
+  have hchans : ∀ side, wfChans w' p side = dryChans w p old new side := by
+    intro side
+    rw [hw', hf2]
+    unfold wfChans dryChans
+    show List.flatMap _ ((tAfter w.t p old new).children p) = _
+    rw [tAfter_children w.t p old new hne, List.flatMap_append]
+    simp
+  have hmaps : w'.imap = w.imap ∧ w'.omap = w.omap := by rw [hw', hf2]; exact ⟨rfl, rfl⟩
+  unfold wfIoOk
+  unfold dryOk at hdok
+  simp only [Bool.and_eq_true] at hdok ⊢
+  rw [hchans, hchans, hmaps.1, hmaps.2]
+  refine ⟨?_, ?_⟩
+  · rw [buildIO_conn_congr (w.imap p) _ (dryConn w old new) _
+      (fun ch hch => dryConn_sound cfg ho ha hlp hpos w p old new w' h hinv htab hself hsib NodeIO.inp
+        (fun _ _ hc => .inl hc) ch hch)]
+    exact hdok.1
+  · rw [buildIO_conn_congr (w.omap p) _ (dryConn w old new) _
+      (fun ch hch => dryConn_sound cfg ho ha hlp hpos w p old new w' h hinv htab hself hsib NodeIO.out
+        (fun _ _ hc => .inr hc) ch hch)]
+    exact hdok.2
+
+/-- `Workflow.replace_child` with every repair in place: all-or-nothing; the revert branch is dead -/
+theorem replace_atomic_full (cfg : Cfg) (ho : cfg.onlyNewUndo = true) (ha : cfg.adoptPrecheck = true)
+    (hlp : cfg.linkPrecheck = true) (hpos : cfg.positional = true) (hdry : cfg.wfDryRun = true)
+    (w : W) (p old new : Nat) (hinv : Inv w.g)
+    (hwf : w.t.kind p = .workflow → Tables w old new ∧ NoSelfConn w.g old ∧ SiblingsApart w p old new)
+    (herr : (replace cfg w p old new).2 ≠ .ok) : (replace cfg w p old new).1 = w := by
+  unfold replace at herr ⊢
+  split
+  · rename_i hk
+    rw [if_pos hk] at herr
+    obtain ⟨htab, hself, hsib⟩ := hwf hk
+    have hat := compReplace_atomic' cfg ho ha hlp w p old new hinv
+    have hio := fun w1 h => wf_rebuild_ok cfg ho ha hlp hpos hdry w p old new w1 hk h hinv htab hself hsib
+    generalize compReplace cfg w p old new = r at herr hat hio ⊢
+    obtain ⟨w1, e⟩ := r
+    cases e with
+    | ok =>
+      have := hio w1 rfl
+      simp only [this, if_true] at herr
+      exact absurd rfl herr
+    | _ => exact hat (by simp)
+  · rename_i hk
+    rw [if_neg hk] at herr
+    exact compReplace_atomic' cfg ho ha hlp w p old new hinv herr
 
 /-! ## `Channel.copy_connections` -/
 
@@ -1880,6 +2342,10 @@ theorem cutAll_noop : ∀ (cs : List Nat) (g : G), (∀ c ∈ cs, g.conns c = []
 /-- the composite-level replacement in a tree that has the ownership pre-check but not the link
 pre-check (`Cfg.current`): all-or-nothing when the composite holds no value link to the replaced
 node and the copy log is faithful -/
+theorem dryRefuses_nonwf (cfg : Cfg) (w : W) (p old new : Nat) (hk : w.t.kind p ≠ .workflow) :
+    dryRefuses cfg w p old new = false := by
+  simp [dryRefuses, hk]
+
 theorem compReplace_atomic_partial (cfg : Cfg) (hap : cfg.adoptPrecheck = true) (hlp : cfg.linkPrecheck = false)
     (w : W) (p old new : Nat) (hinv : Inv w.g) (hk : w.t.kind p ≠ .workflow)
     (hlinks : linksOf w p old new = .ok [])
@@ -1898,7 +2364,7 @@ theorem compReplace_atomic_partial (cfg : Cfg) (hap : cfg.adoptPrecheck = true) 
         simp only [hap, hlp, if_true, Bool.false_eq_true, if_false] at herr ⊢
         cases hpre : adoptPre cfg.fuel w.t p new with
         | ok =>
-          simp only [hpre] at herr ⊢
+          simp only [hpre, dryRefuses_nonwf cfg w p old new hk, Bool.false_eq_true, if_false] at herr ⊢
           have hlog : copyPairs cfg.onlyNewUndo w.g true (ioPairs w new old) []
               = copyPairs true w.g true (ioPairs w new old) [] := by
             cases cfg.onlyNewUndo with
@@ -2014,6 +2480,9 @@ theorem compReplace_ok_shape_plain (cfg : Cfg) (hlp : cfg.linkPrecheck = false) 
         cases pre with
         | ok =>
           dsimp only at h
+          by_cases h5 : dryRefuses cfg w p old new = true
+          · rw [if_pos h5] at h; simp at h
+          rw [if_neg h5] at h
           have hsh := copyIo_ok_shape cfg w new old true false
           generalize copyIo cfg w new old true false = r at h hsh
           obtain ⟨w1, e⟩ := r
